@@ -10,6 +10,7 @@ import (
 	"path/filepath"
 	"strings"
 	"sync"
+	"time"
 
 	"github.com/flamego/flamego"
 )
@@ -55,12 +56,20 @@ func c16setup() {
 			_ = os.MkdirAll(filepath.Dir(p), 0o755)
 			_ = os.WriteFile(p, []byte("FILE"+strings.Repeat("x", e.id)), 0o644)
 		}
+		// every file has its own modification time, different from that of any directory
+		for _, e := range c16files {
+			_ = os.Chtimes(filepath.Join(d, e.path), c16mtime(e.id), c16mtime(e.id))
+		}
 		for _, dd := range c16dirs {
 			_ = os.MkdirAll(filepath.Join(d, dd), 0o755)
 		}
 		// the default directory name, for cases that leave Directory empty and run with the root as working directory
 		_ = os.Symlink("pub", filepath.Join(d, "public"))
 	})
+}
+
+func c16mtime(id int) time.Time {
+	return time.Date(2020, 1, 1, 0, 0, 0, 0, time.UTC).Add(time.Duration(id) * time.Hour)
 }
 
 func c16cleanup() {
@@ -188,7 +197,13 @@ func runC16(in *Sx) *Sx {
 			} else if strings.HasPrefix(body, "FILE") && strings.Trim(body[4:], "x") == "" {
 				id = len(body) - 4
 			}
-			return T("serve", I(id), T("hdrs", B(w.hdr.Get("Expires") != ""), B(w.hdr.Get("Cache-Control") != ""), B(w.hdr.Get("ETag") != "")))
+			// the validators sent with a file are that file's own (its modification time), not a directory's
+			own := true // no validator is no lie
+			if h := w.hdr.Get("Last-Modified"); h != "" {
+				lm, err := http.ParseTime(h)
+				own = id >= 0 && err == nil && lm.Equal(c16mtime(id))
+			}
+			return T("serve", I(id), T("hdrs", B(w.hdr.Get("Expires") != ""), B(w.hdr.Get("Cache-Control") != ""), B(w.hdr.Get("ETag") != "")), B(own))
 		}
 		return T("other", I(w.status), X(body))
 	}
